@@ -37,61 +37,10 @@ def check(chk):
     gl = init.func('ProtocolVersion.get_lower_supported')
     # shape: version = next(<gen over sorted(SUPPORTED, reverse=True) if v not in BETA and v < previous>) ; except StopIteration -> 0
     gens = [n for n in body_walk(gl) if isinstance(n, ast.GeneratorExp)]
-    if len(gens) != 1:
-        raise AnalysisError('get_lower_supported: generator not found')
-    ge = gens[0]
-    it = ge.generators[0]
-    var = src(it.target)
-    consts = {'SUPPORTED_VERSIONS': sup, 'BETA_VERSIONS': beta}
-    pcls = init.cls('ProtocolVersion')
-    for st in pcls.body:
-        if isinstance(st, ast.Assign) and isinstance(st.targets[0], ast.Name):
-            try:
-                consts[st.targets[0].id] = folder.eval(st.value, cls=pcls)
-            except Unfoldable:
-                pass
-    dflt = None
-    for n in body_walk(gl):
-        if isinstance(n, ast.ExceptHandler) and n.type is not None and src(n.type) == 'StopIteration':
-            for st in n.body:
-                if isinstance(st, ast.Assign):
-                    try:
-                        dflt = folder.eval(st.value, env={'ProtocolVersion': consts, 'cls': consts})
-                    except Unfoldable as e:
-                        raise AnalysisError('get_lower_supported: StopIteration default not foldable: %s' % e)
-    if dflt is None:
-        # next(<generator>, default)
-        for n in body_walk(gl):
-            if isinstance(n, ast.Call) and isinstance(n.func, ast.Name) and n.func.id == 'next' and len(n.args) == 2 and n.args[0] is ge:
-                try:
-                    dflt = folder.eval(n.args[1], env={'ProtocolVersion': consts, 'cls': consts})
-                except Unfoldable as e:
-                    raise AnalysisError('get_lower_supported: default of next() not foldable: %s' % e)
-    if dflt is None:
-        raise AnalysisError('get_lower_supported: StopIteration default not found')
-    domain = sorted(set(sup) | set([min(sup) - 1, max(sup) + 1, 0, 7, 0x40]))
-    for prev in domain:
-        env = {'ProtocolVersion': consts, 'cls': consts, 'previous_version': prev}
-        try:
-            seq = folder.eval(it.iter, env=env)
-            res = None
-            for v in seq:
-                e2 = dict(env)
-                e2[var] = v
-                if all(folder.eval(c, env=e2) for c in it.ifs):
-                    res = folder.eval(ge.elt, env=e2)
-                    break
-            if res is None:
-                res = dflt
-        except Unfoldable as e:
-            raise AnalysisError('get_lower_supported not foldable: %s' % e)
-        lower = [v for v in sup if v < prev and v not in beta]
-        want = max(lower) if lower else 0
-        chk.judge(res == want and (res == 0 or (res < prev and res not in beta and res in sup)), 'C41.lower', gl, 'get_lower_supported(%#x) == %#x' % (prev, want),
-                  'get_lower_supported(%#x) gives %#x; the next lower non-beta supported version is %#x' % (prev, res, want))
-    rets = [n for n in body_walk(gl) if isinstance(n, ast.Return)]
-    chk.judge(bool(rets) and all(r.value is not None and (src(r.value) == 'version' or (isinstance(r.value, ast.Call) and r.value.args and r.value.args[0] is ge)) for r in rets),
-              'C41.lower', gl, 'returns the version found (or the default)', 'return value changed')
+    if len(gens) == 1:
+        _lower_by_generator(chk, gl, gens[0], init, folder, sup, beta)
+    else:
+        _lower_by_interpretation(chk, gl, init, folder, sup, beta)
 
     # protocol_downgrade rows
     cl = chk.repo.mod(CLUSTER)
@@ -145,7 +94,8 @@ def check(chk):
         if isinstance(last, ast.Expr) and isinstance(last.value, ast.Call) and src(last.value.func) == 'self._cluster.protocol_downgrade':
             return set(['downgrade'])
         return set(['fall'])
-    chk.judge(ends(t.body) == set(['break']), 'C41.loop', t, 'try body ends in break (after the shutdown check, which raises)', 'the try body can fall through and reconnect without a failure: %s' % ends(t.body))
+    ok_path = list(t.body) + list(t.orelse)     # a try/else continues the normal path of the body
+    chk.judge(ends(ok_path) == set(['break']), 'C41.loop', t, 'try body ends in break (after the shutdown check, which raises)', 'the try body can fall through and reconnect without a failure: %s' % ends(ok_path))
     for h in t.handlers:
         e = ends(h.body)
         chk.judge(e <= set(['raise', 'downgrade']), 'C41.loop', h, 'except %s ends in raise or protocol_downgrade' % src(h.type), 'handler for %s ends in %s: the loop can spin without lowering the version' % (src(h.type), sorted(e)))
@@ -197,3 +147,93 @@ def check(chk):
     # the rejection of a protocol version arrives in the *server's* frame generation: the header layout follows the received version byte
     chk.rule('C41.frame', 'the frame header layout is chosen from the version byte of the received frame (shared with C05)')
     chk.borrow('C05', {'C05.header': 'C41.frame'}, 'the ERROR frame of a v1/v2-only server is mis-parsed, factory() times out and no downgrade is attempted')
+
+
+def _lower_by_generator(chk, gl, ge, init, folder, sup, beta):
+    it = ge.generators[0]
+    var = src(it.target)
+    consts = {'SUPPORTED_VERSIONS': sup, 'BETA_VERSIONS': beta}
+    pcls = init.cls('ProtocolVersion')
+    for st in pcls.body:
+        if isinstance(st, ast.Assign) and isinstance(st.targets[0], ast.Name):
+            try:
+                consts[st.targets[0].id] = folder.eval(st.value, cls=pcls)
+            except Unfoldable:
+                pass
+    dflt = None
+    for n in body_walk(gl):
+        if isinstance(n, ast.ExceptHandler) and n.type is not None and src(n.type) == 'StopIteration':
+            for st in n.body:
+                if isinstance(st, ast.Assign):
+                    try:
+                        dflt = folder.eval(st.value, env={'ProtocolVersion': consts, 'cls': consts})
+                    except Unfoldable as e:
+                        raise AnalysisError('get_lower_supported: StopIteration default not foldable: %s' % e)
+    if dflt is None:
+        # next(<generator>, default)
+        for n in body_walk(gl):
+            if isinstance(n, ast.Call) and isinstance(n.func, ast.Name) and n.func.id == 'next' and len(n.args) == 2 and n.args[0] is ge:
+                try:
+                    dflt = folder.eval(n.args[1], env={'ProtocolVersion': consts, 'cls': consts})
+                except Unfoldable as e:
+                    raise AnalysisError('get_lower_supported: default of next() not foldable: %s' % e)
+    if dflt is None:
+        raise AnalysisError('get_lower_supported: StopIteration default not found')
+    domain = sorted(set(sup) | set([min(sup) - 1, max(sup) + 1, 0, 7, 0x40]))
+    for prev in domain:
+        env = {'ProtocolVersion': consts, 'cls': consts, 'previous_version': prev}
+        try:
+            seq = folder.eval(it.iter, env=env)
+            res = None
+            for v in seq:
+                e2 = dict(env)
+                e2[var] = v
+                if all(folder.eval(c, env=e2) for c in it.ifs):
+                    res = folder.eval(ge.elt, env=e2)
+                    break
+            if res is None:
+                res = dflt
+        except Unfoldable as e:
+            raise AnalysisError('get_lower_supported not foldable: %s' % e)
+        lower = [v for v in sup if v < prev and v not in beta]
+        want = max(lower) if lower else 0
+        chk.judge(res == want and (res == 0 or (res < prev and res not in beta and res in sup)), 'C41.lower', gl, 'get_lower_supported(%#x) == %#x' % (prev, want),
+                  'get_lower_supported(%#x) gives %#x; the next lower non-beta supported version is %#x' % (prev, res, want))
+    rets = [n for n in body_walk(gl) if isinstance(n, ast.Return)]
+    chk.judge(bool(rets) and all(r.value is not None and (src(r.value) == 'version' or (isinstance(r.value, ast.Call) and r.value.args and r.value.args[0] is ge)) for r in rets),
+              'C41.lower', gl, 'returns the version found (or the default)', 'return value changed')
+
+
+def _lower_by_interpretation(chk, gl, init, folder, sup, beta):
+    """get_lower_supported written as a loop: interpreted for every version of the domain (the iterable and the class constants fold)"""
+    from ..absint import Interp
+    pcls = init.cls('ProtocolVersion')
+    consts = {'SUPPORTED_VERSIONS': sup, 'BETA_VERSIONS': beta}
+    for st in pcls.body:
+        if isinstance(st, ast.Assign) and isinstance(st.targets[0], ast.Name):
+            try:
+                consts[st.targets[0].id] = folder.eval(st.value, cls=pcls)
+            except Unfoldable:
+                pass
+
+    def effect(interp, node, c, args, kwargs, env):
+        if c == ('sorted',) and len(args) == 1 and isinstance(args[0], (tuple, list)):
+            return tuple(sorted(args[0], reverse=bool(kwargs.get('reverse', False))))
+        if c == ('reversed',) and len(args) == 1 and isinstance(args[0], (tuple, list)):
+            return tuple(reversed(args[0]))
+        return NotImplemented
+    domain = sorted(set(sup) | set([min(sup) - 1, max(sup) + 1, 0, 7, 0x40]))
+    params = [a.arg for a in gl.args.args]
+    for prev in domain:
+        it = Interp(init, folder=folder, effect=effect)
+        it.concrete_loops = True
+        try:
+            outs = it.run_all(gl, {params[0]: consts, 'ProtocolVersion': consts, params[1]: prev}, cls=pcls)
+        except Exception as e:
+            raise AnalysisError('get_lower_supported could not be interpreted for %#x: %s' % (prev, e))
+        lower = [v for v in sup if v < prev and v not in beta]
+        want = max(lower) if lower else 0
+        for o in outs:
+            res = o.value if o.kind == 'ok' else None
+            chk.judge(res == want, 'C41.lower', gl, 'get_lower_supported(%#x) == %#x' % (prev, want),
+                      'get_lower_supported(%#x) gives %r; the next lower non-beta supported version is %#x' % (prev, res, want))
